@@ -1012,6 +1012,7 @@ def run(ctx: Ctx):
 _S = "urwid/str_util.py"
 _U = "urwid/util.py"
 MUTANTS = [
+    Mut("twin-is-wide-char-width-local", "urwid/str_util.py", "is_wide_char", "        return get_char_width(text[offs]) == 2\n", "        width = get_char_width(text[offs])\n        return width == 2\n", twin=True),
     Mut("set-encoding-underscore-spelling-unknown", "urwid/util.py", "set_encoding", "    family = encoding.replace(\"_\", \"-\")\n", "    family = encoding\n", "TAB|util.set_encoding|spellings"),
     Mut("decode-one-right-bound-on-itself", "urwid/str_util.py", "decode_one_right", "if p == pos - 4:", "if p == p - 4:", "GUARD|str_util.decode_one_right|decode_one_right: comparison decided by its own shape"),
     Mut("prev-char-scan-unbounded", "urwid/str_util.py", "move_prev_char", "while o > start_offs and text[o] & 0xC0 == 0x80:", "while text[o] & 0xC0 == 0x80:", "BOUND|str_util.move_prev_char|utf8 scan read text[o] not limited by start_offs"),
